@@ -141,11 +141,21 @@ package region
 //@   at call DeserializeCellBlocks#1 assert[C02] (typeis(response, "*pb.GetResponse") ==> cast(response, "*pb.GetResponse").Result == r) && (typeis(response, "*pb.MutateResponse") ==> cast(response, "*pb.MutateResponse").Result == r)
 //@   requires typeis(msg, "*pb.MultiResponse")
 //@   requires multiWF(m) && multiRespOK(m, cast(msg, "*pb.MultiResponse"))
-//@   modifies F.pb.Result.Cell, F.pb.GetResponse.Result, F.pb.MutateResponse.Result, F.pb.ScanResponse.Results, M.*pb.Result
+//@   modifies F.pb.Result.Cell, F.pb.GetResponse.Result, F.pb.MutateResponse.Result, F.pb.ScanResponse.Results, M.*pb.Result, X.decoded
 //@   panics never[C11]
 //@   ensures[C11] r1 == nil ==> r0 <= len(b)
 //@   loop 1 invariant nread <= len(b)
 //@   loop 2 invariant nread <= len(b)
+// every result of the response that carries no exception is decoded, wherever it stands among failed actions (C12, C02):
+// ghost decoded[roe] is set when the cells of entry roe are read. A result left undecoded leaves its cells unread: the
+// frame is then reported as a short read and every call of the batch - the acknowledged ones included - is sent again
+//@   at call DeserializeCellBlocks#1 ghost decoded[roe] == 1
+//@   loop 1 invariant[C12,C02] forall(x, old(ghostat("decoded", x)) == 1 ==> ghostat("decoded", x) == 1)
+//@   loop 2 invariant[C12,C02] forall(x, old(ghostat("decoded", x)) == 1 ==> ghostat("decoded", x) == 1)
+//@   loop 2 invariant[C12,C02] forall(x, athead(1, ghostat("decoded", x)) == 1 ==> ghostat("decoded", x) == 1)
+//@   loop 2 invariant[C12,C02] forall(k, 0 <= k && k < idx2 && rar.GetResultOrException()[k].GetException() == nil, ghostat("decoded", rar.GetResultOrException()[k]) == 1)
+//@   loop 1 invariant[C12,C02] forall(p, k, 0 <= p && p < idx1 && mr.GetRegionActionResult()[p].GetException() == nil && 0 <= k && k < len(mr.GetRegionActionResult()[p].GetResultOrException()) && mr.GetRegionActionResult()[p].GetResultOrException()[k].GetException() == nil, ghostat("decoded", mr.GetRegionActionResult()[p].GetResultOrException()[k]) == 1)
+//@   ensures[C12,C02] r1 == nil ==> forall(p, k, 0 <= p && p < len(cast(msg, "*pb.MultiResponse").GetRegionActionResult()) && cast(msg, "*pb.MultiResponse").GetRegionActionResult()[p].GetException() == nil && 0 <= k && k < len(cast(msg, "*pb.MultiResponse").GetRegionActionResult()[p].GetResultOrException()) && cast(msg, "*pb.MultiResponse").GetRegionActionResult()[p].GetResultOrException()[k].GetException() == nil, ghostat("decoded", cast(msg, "*pb.MultiResponse").GetRegionActionResult()[p].GetResultOrException()[k]) == 1)
 
 // ---- region client: sent-calls table, in-flight counter, response dispatch ----
 
@@ -291,8 +301,10 @@ package region
 
 //@ func region.getHeader
 //@   trusted "pool discipline: headers are Reset before they are put back (returnHeader), sync.Pool.New yields a zero header"
-//@   modifies nothing
+//@   modifies X.pooled
 //@   ensures r0 != nil && r0.CellBlockMeta == nil && r0.Priority == nil
+// header ownership (C02, C05): what Get hands out is nobody else's (ghost pooled[h] == 1: h sits in the pool)
+//@   ensures ghostat("pooled", r0) != 1
 // a header goes back to the pool with the fields marshalProto relies on being unset cleared: the getHeader contract
 // above (what the next request starts from) rests on this
 //@ func pb.(*RequestHeader).Reset
@@ -301,14 +313,21 @@ package region
 //@   ensures x.CallId == nil && x.TraceInfo == nil && x.MethodName == nil && x.RequestParam == nil && x.CellBlockMeta == nil && x.Priority == nil && x.Timeout == nil
 //@ func region.returnHeader
 //@   requires header != nil
-//@   modifies F.pb.RequestHeader.*
+// a header is put back once: put back twice, the pool hands the same header to two concurrent senders, and one request
+// goes out under the other's call id (its response is then delivered to the wrong caller)
+//@   requires ghostat("pooled", header) != 1
+//@   modifies F.pb.RequestHeader.*, X.pooled
+//@   at call Put#1 ghost pooled[header] == 1
+//@   ensures ghostat("pooled", header) == 1
 // (the fields marshalProto sets only conditionally; the others are overwritten for every request)
 //@   at call Put#1 assert[C05] header.CellBlockMeta == nil && header.Priority == nil
 
 //@ func region.marshalProto
 //@   requires rpc != nil
-//@   modifies F.pb.RequestHeader.*
+//@   modifies F.pb.RequestHeader.*, X.pooled
 //@   panics never[C05]
+// the header is this sender's own while it is filled in and marshalled
+//@   at call MarshalAppend#1 assert[C02,C05] ghostat("pooled", header) != 1
 //@   at call MarshalAppend#1 assert[C05] header.CallId != nil && *header.CallId == callID && header.MethodName != nil && *header.MethodName == rpc.Name()
 //@   at call MarshalAppend#1 assert[C05] (cellblocksLen > 0) == (header.CellBlockMeta != nil) && (cellblocksLen > 0 ==> header.CellBlockMeta.Length != nil && *header.CellBlockMeta.Length == cellblocksLen)
 //@   at call MarshalAppend#1 assert[C05] (hrpc.GetPriority(rpc) > 0) ==> header.Priority != nil && *header.Priority == hrpc.GetPriority(rpc)
@@ -359,7 +378,7 @@ package region
 
 //@ func region.(*client).send
 //@   requires rpc != nil && c.sent != nil && c.conn != nil && inflightInv(c) && netRange(c) && codecWF(c)
-//@   modifies F.region.client.id, F.region.client.inFlight, D.map[uint32]hrpc.Call, V.map[uint32]hrpc.Call, C.map[uint32]hrpc.Call, F.pb.RequestHeader.*, X.written, X.net, X.armed
+//@   modifies F.region.client.id, F.region.client.inFlight, D.map[uint32]hrpc.Call, V.map[uint32]hrpc.Call, C.map[uint32]hrpc.Call, F.pb.RequestHeader.*, X.written, X.net, X.armed, X.pooled
 //@   panics never[C05]
 // every request with trailing cellblocks is emitted while a lock of the client is held (or, without cellblocks, in one Write call):
 // concurrent senders cannot interleave inside a frame whatever kind of net.Conn it is (C05)
@@ -370,7 +389,8 @@ package region
 // the call is registered before anything is written, and stays registered on every return path (C03)
 //@   ensures[C03] haskey(c.sent, r0) && c.sent[r0] == rpc
 //@   ensures[C03] forall(k, k != r0 ==> c.sent[k] == old(c.sent[k]) && haskey(c.sent, k) == old(haskey(c.sent, k)))
-//@   ensures[C03] r1 != nil && ghost("written") != old(ghost("written")) ==> typeis(r1, "region.ServerError")
+// (C04: a connection fault while sending is a ServerError - the class that takes the connection down and has the request re-sent)
+//@   ensures[C03,C04] r1 != nil && ghost("written") != old(ghost("written")) ==> typeis(r1, "region.ServerError")
 // exactly one count per completed send, none before the bytes have been written (C18)
 //@   ensures[C18] r1 == nil ==> ghostat("net", c) == old(ghostat("net", c)) + 1 && ghost("written") == old(ghost("written")) + 1 && inflightInv(c)
 //@   ensures[C18] ghost("written") == old(ghost("written")) ==> ghostat("net", c) == old(ghostat("net", c))
@@ -400,8 +420,12 @@ package region
 //@ func region.(*client).fail
 //@   requires c.sent != nil && sentWF(c)
 //@   requires failWF(c)
-//@   modifies F.region.client.sent, D.map[uint32]hrpc.Call, V.map[uint32]hrpc.Call, C.map[uint32]hrpc.Call, F.region.multi.*, M.hrpc.Call, X.delivered, X.owed, F.pb.GetResponse.Result, F.pb.MutateResponse.Result, X.oncedone, X.closed
+//@   modifies F.region.client.sent, D.map[uint32]hrpc.Call, V.map[uint32]hrpc.Call, C.map[uint32]hrpc.Call, F.region.multi.*, M.hrpc.Call, X.delivered, X.owed, F.pb.GetResponse.Result, F.pb.MutateResponse.Result, X.oncedone, X.closed, X.shut
 //@   panics never[C03]
+// the sent table is drained only once the connection is shut: a sender admitted before the transition that registers
+// after the drain then fails its write and unregisters itself (trySend); drained earlier, its write could still
+// succeed and nobody would ever complete the call
+//@   at call failSentRPCs#1 assert[C03] c.conn != nil ==> ghostat("shut", c.conn) == 1
 //@   ensures[C03] ghostat("oncedone", ref(c.failOnce)) == 1 && c.sent != nil && owedShrinks()
 //@   ensures[C03] forall(k, k != ref(c.failOnce) ==> ghostat("oncedone", k) == old(ghostat("oncedone", k)))
 //@   ensures[C03] old(ghostat("oncedone", ref(c.failOnce))) == 0 ==> len(c.sent) == 0 && ghostat("closed", c.done) == 1
@@ -491,6 +515,9 @@ package region
 //@ func region.(*client).Dial
 //@   requires c.sent != nil && sentWF(c) && failWF(c)
 //@   ensures[C20] ghostat("oncedone", ref(c.dialOnce)) == 1
+// setting up the connection arms no read deadline (C18): nothing is outstanding on a connection that has just said
+// hello, and a read deadline left behind by Dial would tear the idle connection down when the dial context's deadline passes
+//@   ensures[C18] forall(k, ghostat("armed", k) == old(ghostat("armed", k)))
 //@   ensures[C20] old(ghostat("oncedone", ref(c.dialOnce))) == 1 ==> ghost("dials") == old(ghost("dials"))
 //@   ensures[C20] old(ghostat("oncedone", ref(c.dialOnce))) == 0 ==> ghost("dials") == old(ghost("dials")) + 1
 
@@ -533,6 +560,14 @@ package region
 // map in unrelated orders, so appending anywhere else would detach the cells from their actions)
 //@   loop 2 invariant[C05] sameslice(cbs, atentry(2, cbs))
 //@   loop 3 invariant[C05] len(cbs) == atentry(3, len(cbs)) + sumvisited(r, len(actionsPerReg[r].cellblocks))
+// a call is serialised (its cells appended to its region's cellblocks, its size counted) exactly when it also gets an
+// action in the request (C05): ghost ser[k] counts the serialisations of slot k. Cells without an action would be read by
+// the server as the cells of the next mutation. And a region that appears in the request has at least one action.
+//@   at call SerializeCellBlocks#1 ghost ser[i] == ghostat("ser", i) + 1
+//@   at call ToProto#1 ghost ser[i] == ghostat("ser", i) + 1
+//@   loop 1 invariant[C05] forall(k, 0 <= k && k < i, ghostat("ser", k) == old(ghostat("ser", k)) + ite(m.calls[k] != nil, 1, 0))
+//@   loop 1 invariant[C05] forall(k, i <= k && k < len(m.calls), ghostat("ser", k) == old(ghostat("ser", k)))
+//@   loop 1 invariant[C05] forall(r, haskey(actionsPerReg, r) ==> len(actionsPerReg[r].pbs) >= 1)
 // the action built for slot k carries the 1-based index k+1 (C02): ghost actof[k] = the action appended for slot k
 //@   at call append#1 ghost actof[i] == a
 //@   loop 1 invariant len(indices) == len(m.calls) && len(pbActions) == len(m.calls) && forall(k, i <= k && k < len(m.calls), !escaped(indices, k) && !escaped(pbActions, k))
